@@ -51,6 +51,9 @@ pub struct ServerParams {
     /// servers), 2 = the length of the payload behind the header (FreeRDP-style servers). Receivers size nothing by it.
     pub sd_length_convention: u8,
     pub license_sec_extra: u16,
+    /// flagsHi of the licence packet's security header: without SEC_FLAGSHI_VALID it "is uninitialized and MAY contain
+    /// random data" (MS-RDPBCGR 2.2.8.1.1.2.1)
+    pub license_flags_hi: u16,
     /// LICENSE_PREAMBLE flags: version 2.0 / 3.0 in the low nibble, EXTENDED_ERROR_MSG_SUPPORTED (0x80) on top
     pub license_flags: u8,
     pub share_id: u32,
@@ -95,6 +98,7 @@ impl ServerParams {
             tls12: false,
             sd_length_convention: 0,
             license_sec_extra: 0,
+            license_flags_hi: 0,
             license_flags: 0x03,
             share_id: 0x000103ea,
             source_desc: b"RDP\0".to_vec(),
@@ -156,6 +160,7 @@ impl ServerParams {
         let bl = match ctx.choose("blob_len_c", 3) { 0 => 0, 1 => ctx.choose("blob_len", 16) as usize, _ => ctx.choose("blob_len", 600) as usize };
         p.license_blob = ctx.bytes("blob", bl.min(8)).into_iter().cycle().take(bl).collect();
         p.license_sec_extra = if ctx.chance("lic_0200", 1, 3) { 0x0200 } else { 0 };
+        p.license_flags_hi = if ctx.chance("lic_flags_hi", 1, 3) { 1 + ctx.choose("lic_flags_hi_v", 0xffff) as u16 } else { 0 };
         p.tls12 = ctx.chance("tls12_server", 1, 3);
         p.sd_length_convention = *ctx.pick("sd_length_convention", &[0u8, 0, 0, 1, 2]);
         p.license_flags = *ctx.pick("lic_preamble_flags", &[0x03u8, 0x03, 0x03, 0x83, 0x83, 0x02, 0x82]);
@@ -394,7 +399,7 @@ pub fn send_data_indication(p: &ServerParams, payload: &Wr) -> Wr {
 
 pub fn license(p: &ServerParams) -> Wr {
     let mut w = Wr::new();
-    w.u16le("sec.flags", 0x0080 | p.license_sec_extra).u16le("sec.flagsHi", 0);
+    w.u16le("sec.flags", 0x0080 | p.license_sec_extra).u16le("sec.flagsHi", p.license_flags_hi);
     if p.license_kind >= 2 {
         // other licensing messages a server with licensing enabled may send (MS-RDPELE); only used as base
         // messages for the hostile scenarios, the client does not implement them
